@@ -15,7 +15,7 @@ for m in sorted(glob.glob('/verif/seeded/*/meta.json')):
         prev.append(j['summary'])
 print(f"""You are helping test a verification effort for the Rust project garnish-lang/garnish-core (the Garnish scripting language core: lexer, parser, bytecode builder, stack-based runtime over a pluggable data trait, two data implementations SimpleGarnishData and BasicGarnishData).
 
-Your own scratch git worktree of the repository is at {wt} . Work ONLY inside it (never touch /repo or /verif, never read /verif). There is no network; use `cargo ... --offline`. The workspace builds and its test suite passes: `cd {wt} && cargo test --workspace --no-fail-fast --offline` (about 1500 tests).
+Your own scratch git worktree of the repository is at {wt} . Work ONLY inside it (never touch /repo or /verif, never read /verif). There is no network; use `cargo ... --offline`. The workspace builds; run its test suite with `cd {wt} && cargo test --workspace --no-fail-fast --offline`: about 1500 tests pass and 39 tests (runtime mock tests hitting unimplemented!() stubs, one simple_data iterator test, 11 in tests/tests) ALREADY FAIL on the clean checkout - 'the test suite still passes' below means: the set of passing tests is unchanged (no test that passes on the clean checkout fails with your change).
 
 Here is one semantic property that the project is supposed to satisfy:
 
@@ -38,4 +38,4 @@ DELIVERABLES, all under {wt}/SEED/ (create the directory; it is not part of the 
   * SEED/patch.diff   - `git diff` of your change to the repository sources (must apply with `git apply` to a clean checkout; must NOT include SEED/ itself). Leave the change APPLIED in the worktree when you finish.
   * SEED/demo/        - a small standalone cargo binary crate (its own `[workspace]` table in Cargo.toml, path dependencies like `garnish_lang_compiler = {{ path = "../../compiler" }}`, `garnish_lang_simple_data = {{ path = "../../data" }}`, `garnish_lang_runtime = {{ path = "../../runtime" }}`, `garnish_lang_traits = {{ path = "../../traits" }}` as needed; copy {wt}/Cargo.lock to SEED/demo/Cargo.lock first so it resolves offline) whose `cargo run --offline --quiet` EXITS 0 on the unchanged code and EXITS NON-ZERO (assertion failure / process::exit(1) / panic) with your change applied. It should print what it observed. Keep it deterministic and quick (< 30 s), and guard anything that could hang or eat memory.
   * SEED/notes.md     - what you changed and why it breaks the property, exactly what is needed for it to manifest, why the existing tests do not notice, and the commands you ran with their observed results (test suite with the change: all pass; demo with change: fails; demo without change: passes).
-Verify all three claims yourself before finishing (run the full test suite with the change applied; run the demo with and without the change - use `git stash`/`git apply -R SEED/patch.diff` carefully and restore the change afterwards). Remove the demo's `target` directory when done. In your final message give a 3-line summary: file/function changed, what it needs to manifest, and the verification results.""")
+Verify all three claims yourself before finishing (run the full test suite with the change applied; run the demo with and without the change - NEVER use `git stash` (the stash is shared with other people's worktrees of this repository and will swap changes between them); instead write `git diff > SEED/patch.diff`, then `git apply -R SEED/patch.diff` to remove your change and `git apply SEED/patch.diff` to restore it). Remove the demo's `target` directory when done. In your final message give a 3-line summary: file/function changed, what it needs to manifest, and the verification results.""")
